@@ -118,6 +118,16 @@ def print_assumptions(log):
     return res
 
 
+def regenerate():
+    """Run every translator (tools/gen.d/*) on the current /repo tree."""
+    with Lock("coq"):
+        rc, out = sh([os.path.join(VERIF, "tools", "gen_all.py")], env={"VERIF_REPO": REPO}, timeout=1800)
+    missing = [l[8:] for l in out.split("\n") if l.startswith("MISSING ")]
+    if rc != 0 and not missing:
+        raise Infra("translator failed:\n" + out[-2000:])
+    return {"missing": missing, "summary": [l for l in out.split("\n") if l and not l.startswith("MISSING ")][:40]}
+
+
 def props_file(pid):
     return "Props/Properties_%s.vo" % pid
 
